@@ -3,6 +3,7 @@ package sym
 import (
 	"fmt"
 	"go/types"
+	"regexp"
 	"strings"
 
 	"govc/internal/smt"
@@ -55,8 +56,19 @@ func (x *Exec) declSlice() {
 	x.ctx.Datatype(SliceSort, "mkslice", [][2]string{{"s.arr", "Int"}, {"s.off", "Int"}, {"s.len", "Int"}, {"s.cap", "Int"}})
 }
 
+var aliasRe = regexp.MustCompile(`\b(byte|rune|any)\b`)
+
 func typeName(t types.Type) string {
 	s := types.TypeString(t, func(p *types.Package) string { return p.Path() })
+	s = aliasRe.ReplaceAllStringFunc(s, func(m string) string {
+		switch m {
+		case "byte":
+			return "uint8"
+		case "rune":
+			return "int32"
+		}
+		return "interface{}"
+	})
 	s = strings.NewReplacer(" ", "_", "(", "<", ")", ">", "|", "!", ";", "_", "\"", "'", "\n", "_", "\t", "_").Replace(s)
 	if len(s) > 120 {
 		s = fmt.Sprintf("%s~%x", s[:100], hashStr(s))
@@ -153,6 +165,11 @@ func isAggregate(t types.Type) bool {
 func (x *Exec) interiorRef(t types.Type, i int, base smt.T) smt.T {
 	st := t.Underlying().(*types.Struct)
 	f := x.ctx.Fun(fmt.Sprintf("fa$%s.%s", typeName(t), st.Field(i).Name()), []string{smt.Int}, smt.Int)
+	if _, ok := x.axioms["ax:"+f]; !ok {
+		x.ctx.Fun("fresh$", []string{smt.Int}, smt.Bool)
+		inv := x.ctx.Fun("inv$"+strings.Trim(f, "|"), []string{smt.Int}, smt.Int)
+		x.axioms["ax:"+f] = "(assert (forall ((r!a Int)) (! (and (= (fresh$ (" + f + " r!a)) (fresh$ r!a)) (= (" + inv + " (" + f + " r!a)) r!a) (=> (> r!a 0) (> (" + f + " r!a) 0))) :pattern ((" + f + " r!a)))))"
+	}
 	return smt.App(smt.Int, f, base)
 }
 
